@@ -358,3 +358,13 @@ Example C08_apply_switch_example :
                [EStep (wx 1); ESetApply 0 false; EStep (wx 2); ESetApply 0 true; EStep (wx 3)])
   = [(0, [true], [true], 0, -1); (1, [true], [true], 0, 0); (2, [true], [true], 0, -3)]%Z.
 Proof. exact witness_apply_switch. Qed.
+
+(* Extended-Lagrangian variables over HISTORIES (C17's module trace [mtrace], with sleeping steps): feeding every step with
+   the pipeline's routing of that step's bias list, at every awake step without a factor error the atoms get
+   factor_v * spring + the bypassing biases and the extended coordinate the ordinary biases / factor_v; a sleeping step
+   is C17's [sleep] whatever the biases. *)
+Theorem C08_extended_routing_history :
+  forall (BS : Type) (c : @config R) (p : @params R) (it0 : Z) (i : nat) (h : list (@hist_elem BS)) (s : @state R),
+    routed_ok c p it0 i s h.
+Proof. exact @extended_routing_history. Qed.
+Print Assumptions C08_extended_routing_history.
